@@ -162,6 +162,8 @@ class SyncDriver:
 
             self._inst = Installed()
             self.sched = self._inst.__enter__()
+            sched = self.sched
+            h.rec.clock = lambda: sched.now
         self.interp = interp if interp is not None else h._attach(SyncInterpreter(h.machine()))
         self.raised: List[BaseException] = []
 
@@ -242,6 +244,7 @@ class AsyncDriver:
         self.h = h
         self.rec = h.rec
         self.loop = loop or VLoop()
+        h.rec.clock = self.loop.time
         with self.loop.active():
             self.interp = interp if interp is not None else h._attach(Interpreter(h.machine()))
         self.raised: List[BaseException] = []
